@@ -613,6 +613,20 @@ def run(chk):
         if n_here < 1:
             raise core.AnalysisBroken("%s: no member function changes the length of %s" % (ccls, "/".join(cmem)))
 
+    # ---- C20.loopbound: counting loops over a sequence stay inside it
+    r_lb = chk.rule("C20.loopbound", "a counting loop `for (i = ..; i OP C.size() +/- k; ++i)` over a std::vector / string / array / deque that subscripts the same sequence with operator[] (unchecked) at i + m: in the last iteration the index is at most size - 1 (with `<` / `!=` against size() - k the offset m is at most k; `<=` needs m < k).  The bound may be a local initialised from C.size() that is not written again; loops that move the index or resize the sequence in the body, and subscripts under a test of the index, are left undecided", floor=100)
+    from verif import loopbound
+    for f in fx.fns:
+        if not f.get("body") or not f["file"].startswith(core.REPO + "/opm/"):
+            continue
+        for l_, cont, iv, op, boff, subs in loopbound.analyse(f):
+            key = "%s@%d" % (f["q"], l_)
+            chk.instance(r_lb, key, sample=dict(function=f["q"], sequence=cont, index=iv, test="%s %s %s.size()%s" % (iv, op, cont, ("%+d" % boff) if boff else ""), subscripts=[(m, ok, g) for _, m, ok, g in subs]))
+            for sl, m, ok, guarded in subs:
+                if not ok and not guarded:
+                    chk.violation(r_lb, key, "%s: the loop runs while `%s %s %s.size()%s` and reads `%s[%s%s]`: in its last iteration the index is %s.size()%+d, outside the sequence (unchecked operator[])" % (
+                        f["q"], iv, op, cont, ("%+d" % boff) if boff else "", cont, iv, ("%+d" % m) if m else "", cont, boff + m - (1 if op in ("<", "!=") else 0)), f["file"], sl)
+
     r_cu = chk.rule("C20.cursor", "token cursors (an index compared with V.size(), used in V[idx] and advanced by the code): every V[idx] is preceded on every path by a test that establishes idx < V.size() since the last advance; where the end is tested with equality the cursor is never advanced from a state that may already be the end", floor=40)
     n_cursors = 0
     for f in fx.fns:
